@@ -86,10 +86,27 @@ def r1(ctx):
 
 def r2(ctx):
     f = ctx.repo.func("beacon.parse_transform_binary")
-    loc = {}
-    for name in ("ENABLE_STEPS", "ARGUMENT_STEPS", "BUILD_MAP"):
-        d = assignments_to(f.node, name)
-        loc[name] = d[0][1] if len(d) == 1 else None
+    # roles are discovered from the dispatch, not from variable names: the list tested by the branch that appends
+    # (name, True) is the no-argument class, the one tested by the branch that reads an argument the length-prefixed
+    # class; the dict whose .get() maps the build selector is the build map
+    loc = {"ENABLE_STEPS": None, "ARGUMENT_STEPS": None, "BUILD_MAP": None}
+    role_name = {}
+    for st in statements(f.node):
+        if isinstance(st, ast.If) and isinstance(st.test, ast.Compare) and len(st.test.ops) == 1 and isinstance(st.test.ops[0], ast.In) and isinstance(st.test.comparators[0], ast.Name):
+            lname = st.test.comparators[0].id
+            d = assignments_to(f.node, lname)
+            if len(d) != 1 or not isinstance(d[0][1], (ast.List, ast.Tuple, ast.Set)):
+                continue
+            reads = any(isinstance(c, ast.Call) and isinstance(c.func, ast.Attribute) and c.func.attr == "read" for s2 in st.body for c in ast.walk(s2))
+            role = "ARGUMENT_STEPS" if reads else "ENABLE_STEPS"
+            loc[role] = d[0][1]
+            role_name[lname] = role
+    for n in body_walk(f.node):
+        if isinstance(n, ast.Call) and isinstance(n.func, ast.Attribute) and n.func.attr == "get" and isinstance(n.func.value, ast.Name):
+            d = assignments_to(f.node, n.func.value.id)
+            if len(d) == 1 and isinstance(d[0][1], ast.Dict):
+                loc["BUILD_MAP"] = d[0][1]
+                role_name[n.func.value.id] = "BUILD_MAP"
     en, ar = set(_members(loc["ENABLE_STEPS"])), set(_members(loc["ARGUMENT_STEPS"]))
     ctx.ob("R2", "TABLE", f, "ENABLE_STEPS", en == tables.STEPS_NO_ARG, f"no-argument opcodes {sorted(en)}; reference {sorted(tables.STEPS_NO_ARG)}", loc["ENABLE_STEPS"] or f.node)
     ctx.ob("R2", "TABLE", f, "ARGUMENT_STEPS", ar == tables.STEPS_LEN_ARG, f"length-prefixed opcodes {sorted(ar)}; reference {sorted(tables.STEPS_LEN_ARG)}", loc["ARGUMENT_STEPS"] or f.node)
@@ -111,8 +128,8 @@ def r2(ctx):
             continue
         t = st.test
         cls = None
-        if isinstance(t, ast.Compare) and len(t.ops) == 1 and isinstance(t.ops[0], ast.In) and dotted(t.comparators[0]) in ("ENABLE_STEPS", "ARGUMENT_STEPS"):
-            cls = dotted(t.comparators[0])
+        if isinstance(t, ast.Compare) and len(t.ops) == 1 and isinstance(t.ops[0], ast.In) and role_name.get(dotted(t.comparators[0])) in ("ENABLE_STEPS", "ARGUMENT_STEPS"):
+            cls = role_name[dotted(t.comparators[0])]
         elif any(isinstance(op, ast.Eq) and "TransformStep.BUILD" in (dotted(l), dotted(r)) for l, op, r in compare_parts(t)):
             cls = "BUILD"
         if cls is None:
@@ -122,7 +139,9 @@ def r2(ctx):
         detail = "branch does not append exactly one (name, value) step"
         if len(apps) == 1 and apps[0].args and isinstance(apps[0].args[0], ast.Tuple) and len(apps[0].args[0].elts) == 2:
             nm, val = apps[0].args[0].elts
-            nm_ok = dotted(origin(f.node, nm)) in ("step.name",) or dotted(nm) == "name"
+            nmo = origin(f.node, nm)
+            # the emitted name is <enum member>.name of the opcode decoded in this iteration
+            nm_ok = isinstance(nmo, ast.Attribute) and nmo.attr == "name" and isinstance(origin(f.node, nmo.value), ast.Call) and dotted(origin(f.node, nmo.value).func) == "TransformStep"
             if cls == "ENABLE_STEPS":
                 ok = nm_ok and is_const(val, True)
                 detail = f"appends ({src(nm)}, {src(val)}); required (opcode name, True)"
@@ -136,7 +155,7 @@ def r2(ctx):
                 detail = f"appends ({src(nm)}, {src(rd)}); argument length {src(ln)} is a 4-byte big-endian read={len_ok}"
             else:
                 vo = origin(f.node, val)
-                sel = vo.args[0] if isinstance(vo, ast.Call) and isinstance(vo.func, ast.Attribute) and vo.func.attr == "get" and dotted(vo.func.value) == "BUILD_MAP" and vo.args else None
+                sel = vo.args[0] if isinstance(vo, ast.Call) and isinstance(vo.func, ast.Attribute) and vo.func.attr == "get" and role_name.get(dotted(vo.func.value)) == "BUILD_MAP" and vo.args else None
                 so = origin(f.node, sel) if sel is not None else None
                 ok = nm_ok and isinstance(so, ast.Call) and _is_be32(ctx, f, so) == (4, "big", False)
                 detail = f"appends ({src(nm)}, {src(vo)}); selector is a 4-byte big-endian read={ok}"
@@ -242,39 +261,50 @@ def r4(ctx):
 
 def r5(ctx):
     f = ctx.repo.func("beacon.beacon_gate_options_string")
-    groups = {}
-    for name in ("comms", "core", "cleanup"):
-        d = assignments_to(f.node, name)
-        try:
-            groups[name] = set(const_eval(d[0][1])) if len(d) == 1 else None
-        except (NotConst, TypeError):
-            groups[name] = None
     ref = {"comms": set(tables.BEACON_GATE_COMMS), "core": set(tables.BEACON_GATE_CORE), "cleanup": set(tables.BEACON_GATE_CLEANUP)}
+    # the three group sets are found by what they are (set literals of API names), their role by which label the
+    # branch testing them reports
+    lits = {}
+    for st in statements(f.node):
+        if isinstance(st, ast.Assign) and isinstance(st.targets[0], ast.Name) and isinstance(st.value, (ast.Set, ast.List, ast.Tuple)):
+            try:
+                v = set(const_eval(st.value))
+            except (NotConst, TypeError):
+                continue
+            if v and all(isinstance(x, str) for x in v):
+                lits[st.targets[0].id] = v
+    order = []
+    opt_var = None
+    for st in statements(f.node):
+        if isinstance(st, ast.If) and isinstance(st.test, ast.Call) and isinstance(st.test.func, ast.Attribute) and st.test.func.attr == "issuperset":
+            opt_var = dotted(st.test.func.value)
+            arg = st.test.args[0] if st.test.args else None
+            names = sorted({n.id for n in ast.walk(arg) if isinstance(n, ast.Name)}) if arg is not None else []
+            lab = [c for s2 in st.body for c in ast.walk(s2) if isinstance(c, ast.Call) and isinstance(c.func, ast.Attribute) and c.func.attr == "append"]
+            sub = [s2 for s2 in st.body if isinstance(s2, ast.AugAssign) and isinstance(s2.op, ast.Sub) and dotted(s2.target) == opt_var]
+            sub_names = sorted({n.id for n in ast.walk(sub[0].value) if isinstance(n, ast.Name)}) if sub else None
+            label = _c(lab[0].args[0]) if len(lab) == 1 and lab[0].args else None
+            order.append((label, names, sub_names))
+    role = {}
+    for label, names, _sub in order:
+        if label in ("Comms", "Core", "Cleanup") and len(names) == 1:
+            role[label.lower()] = names[0]
+    groups = {k: lits.get(role.get(k)) for k in ref}
     for k in ref:
-        ctx.ob("R5", "TABLE", f, k, groups[k] == ref[k], f"group {k}: missing {sorted(ref[k] - (groups[k] or set()))} extra {sorted((groups[k] or set()) - ref[k])}")
+        ctx.ob("R5", "TABLE", f, k, groups[k] == ref[k], f"group {k} (variable {role.get(k)}): missing {sorted(ref[k] - (groups[k] or set()))} extra {sorted((groups[k] or set()) - ref[k])}")
     cd = ctx.cdefs("beacon")["cs_struct"]
     fields = {x.name for x in cd.struct("BeaconGateOptions").fields}
     if all(groups.values()):
         union = groups["comms"] | groups["core"] | groups["cleanup"]
         disj = len(union) == sum(len(g) for g in groups.values())
         ctx.ob("R5", "TABLE", f, "partition", disj and union == fields, f"groups are pairwise disjoint={disj} and cover the struct's fields={union == fields}")
-    # order of the group tests and subtraction
-    order = []
-    for st in statements(f.node):
-        if isinstance(st, ast.If) and isinstance(st.test, ast.Call) and isinstance(st.test.func, ast.Attribute) and st.test.func.attr == "issuperset":
-            arg = st.test.args[0] if st.test.args else None
-            names = sorted({n.id for n in ast.walk(arg) if isinstance(n, ast.Name)}) if arg is not None else []
-            lab = [c for s in st.body for c in ast.walk(s) if isinstance(c, ast.Call) and isinstance(c.func, ast.Attribute) and c.func.attr == "append"]
-            sub = [s for s in st.body if isinstance(s, ast.AugAssign) and isinstance(s.op, ast.Sub) and dotted(s.target) == dotted(st.test.func.value)]
-            sub_names = sorted({n.id for n in ast.walk(sub[0].value) if isinstance(n, ast.Name)}) if sub else None
-            label = _c(lab[0].args[0]) if len(lab) == 1 and lab[0].args else None
-            order.append((label, names, sub_names))
-    want = [("All", ["cleanup", "comms", "core"], ["cleanup", "comms", "core"]), ("Comms", ["comms"], ["comms"]), ("Core", ["core"], ["core"]), ("Cleanup", ["cleanup"], ["cleanup"])]
-    ctx.ob("R5", "AGREE", f, "group tests", order == want, f"(label, tested, subtracted) in order: {order}; required {want}")
+    allnames = sorted(role.values())
+    want = [("All", allnames, allnames)] + [(lab, [role.get(lab.lower())], [role.get(lab.lower())]) for lab in ("Comms", "Core", "Cleanup")]
+    ctx.ob("R5", "AGREE", f, "group tests", order == want and len(role) == 3, f"(label, tested, subtracted) in order: {order}; required All over all three groups first, then Comms, Core, Cleanup each subtracting what it reported")
     ext = [c for c in fn_calls(f.node) if isinstance(c.func, ast.Attribute) and c.func.attr == "extend"]
-    ctx.ob("R5", "AGREE", f, "remaining options", len(ext) == 1 and dotted(ext[0].args[0]) == "options", "left-over individual APIs are appended after the groups" if len(ext) == 1 else "left-over APIs are not reported")
+    ctx.ob("R5", "AGREE", f, "remaining options", len(ext) == 1 and dotted(ext[0].args[0]) == opt_var, "left-over individual APIs are appended after the groups" if len(ext) == 1 else "left-over APIs are not reported")
     # the option set is built from the truthy flags
-    od = [v for st, v in assignments_to(f.node, "options") if v is not None]
+    od = [v for st, v in assignments_to(f.node, opt_var) if v is not None] if opt_var else []
     first = od[0] if od else None
     comp = first
     if isinstance(first, ast.Call) and dotted(first.func) == "set" and first.args:
@@ -287,13 +317,11 @@ def r5(ctx):
         cond = gen.ifs[0]
         tnames = [n.id for n in ast.walk(gen.target) if isinstance(n, ast.Name)]
         elt_is_name = dotted(comp.elt) in tnames
-        # (a) iterate (name, value) pairs of the instance and keep truthy values
         pairs = isinstance(gen.target, ast.Tuple) and len(tnames) == 2 and dotted(comp.elt) == tnames[0] and dotted(cond) == tnames[1] and bgo_p in src(gen.iter)
-        # (b) iterate names and read the flag from the instance
         reads = isinstance(cond, ast.Call) and dotted(cond.func) == "getattr" and len(cond.args) == 2 and dotted(cond.args[0]) == bgo_p and dotted(cond.args[1]) == dotted(comp.elt)
         reads = reads or (isinstance(cond, ast.Subscript) and dotted(cond.value) == bgo_p and dotted(cond.slice) == dotted(comp.elt))
         names_src = {n.id for n in ast.walk(gen.iter) if isinstance(n, ast.Name)}
-        all_names = reads and ({"comms", "core", "cleanup"} <= names_src or bgo_p in names_src or "BeaconGateOptions" in names_src)
+        all_names = reads and (set(role.values()) <= names_src or bgo_p in names_src or "BeaconGateOptions" in names_src)
         o_ok = elt_is_name and (pairs or all_names)
         detail = f"option set {src(first)}: element is the flag name={elt_is_name}; kept iff the flag on the parsed struct is truthy={bool(pairs or reads)}; ranges over all flags={bool(pairs or all_names)}"
     ctx.ob("R5", "AGREE", f, "options = {enabled flags}", bool(o_ok), detail, first or f.node)
